@@ -27,6 +27,15 @@ impl Driven for D {
          _ => panic!("verif harness: unknown relation {}", rel),
       }
    }
+   fn clear(&mut self, rel: &str) {
+      match rel {
+         "e" => { self.0.e = Default::default(); },
+         "f" => { self.0.f = Default::default(); },
+         "n" => { self.0.n = Default::default(); },
+         "r" => { self.0.r = Default::default(); },
+         _ => panic!("verif harness: unknown relation {}", rel),
+      }
+   }
    fn run(&mut self) { self.0.run(); }
    fn run_timeout(&mut self, nanos: u64) -> Option<bool> { Some(self.0.run_timeout(std::time::Duration::from_nanos(nanos))) }
    fn dump(&self) -> Value {
